@@ -52,7 +52,8 @@ PROPS = {
                         "titles are never blank after clean-up (GitLab forbids blank titles); only system notes the importer knows are generated"],
         "tests": [{"name": "TestC16Import", "quick": 6, "shards_quick": 4, "thorough": 40, "shards": 16, "timeout_quick": 900},
                   {"name": "TestC16SlowImport", "quick": None, "thorough": None},
-                  {"name": "TestC16ImportWhilePulling", "quick": 12, "thorough": 150, "shards": 2}],
+                  {"name": "TestC16ImportWhilePulling", "quick": 12, "thorough": 150, "shards": 2},
+                  {"name": "TestC16OlderImportData", "quick": 12, "thorough": 150, "shards": 2}],
     },
     "C18": {
         "level": "exploration",
@@ -183,6 +184,7 @@ PROPS = {
                   {"name": "TestC12Evaluate", "quick": 50, "shards_quick": 3, "thorough": 300, "shards": 12},
                   {"name": "TestC12SearchAfterBuild", "quick": 6, "shards_quick": 3, "thorough": 60, "shards": 6},
                   {"name": "TestC12IndexFailure", "quick": 200, "thorough": 3000, "shards": 4},
+                  {"name": "TestC12GhostAfterRebuild", "quick": 60, "thorough": 600, "shards": 4},
                   {"name": "FuzzQueryParse", "fuzztime": 60}],
     },
     "C11": {
@@ -218,7 +220,8 @@ PROPS = {
                 "The tested commit is the root, a child with one comment or a child with an empty pack; an altered commit keeps its signature and changes the tree, the parent or the date; mutators rotate keys in place in half of the same-size changes, and a key change that adds no version is a failure.",
         "assumptions": ["go-git stores/returns the signed bytes faithfully (the mock backend only signs the tree hash and is not used)"],
         "tests": [{"name": "TestC08Signatures", "quick": 500, "shards_quick": 2, "thorough": 3000, "shards": 16},
-                  {"name": "TestC08RotationDuringCommit", "quick": 100, "thorough": 1500, "shards": 4}],
+                  {"name": "TestC08RotationDuringCommit", "quick": 100, "thorough": 1500, "shards": 4},
+                  {"name": "TestC08UnreadableKey", "quick": 100, "thorough": 1500, "shards": 2}],
     },
     "C09": {
         "level": "exploration",
@@ -661,4 +664,20 @@ _ROUND8_RULES = {
     "C20": "CreateK >= 0: the first page (size 1..3) of allBugs sort:creation-asc is served from a hook inside another user's creation of a bug, the following pages after it; every bug that existed at the start is visited once, in order.",
 }
 for _k, _v in _ROUND8_RULES.items():
+    PROPS[_k]["rule"] += " " + _v
+
+_ROUND9_RULES = {
+    "C04": "A quarter of TestC04RoundTrip's cases also open the repository from a linked working tree (git worktree add) and a sub-directory of it: the bug reads back with the expected operations, and a bug committed there reads back in the main tree.",
+    "C06": "Scenario pull-dag-stale-clocks: the dag-level pull with every clock file set back to 1 beforehand; an uninterrupted run that fails is reported too.",
+    "C07": "A third of the cases with a local entity pack every reference (git pack-refs --all --prune) before the merge.",
+    "C08": "TestC08UnreadableKey: an identity declaring a key of algorithm 25/26/27/28/99/110 in a v4/v5/v6 packet (alone or after an ordinary key); an unsigned or stranger-signed commit in its name is never read or merged as valid.",
+    "C09": "Half of the cache-level pulls load the cache from its files, resolve every identity and set the identity cache size to exactly that number before merging.",
+    "C11": "Action race (planned segment, and the last action of half of the histories): two requests on one bug (comment+commit, label+commit), the first parked before its K-th cache-mutex acquisition (K in 0..24) while the second runs; then the usual live-vs-rebuilt comparison.",
+    "C12": "TestC12GhostAfterRebuild: 2..7 bugs created through a cache, cache closed, one bug's reference deleted with stock git and (two cases in three) the index directory removed; after the reopen no query returns the deleted bug and each returns the others.",
+    "C16": "TestC16OlderImportData: after a first import one label operation per bug is stored a second time with the same gitlab-id (what the older bridge version did); every issue is listed again three times; the operation count does not grow.",
+    "C17": "One bug has a 72-comment thread; targetPrefix may be a combined-id prefix shared by two or more of its comments (class ambiguous): the mutation must be refused.",
+    "C18": "Half of the label calls of TestC18Concurrent ask for the same label (all but the first have nothing to do and are answered with an error).",
+    "C20": "The walked bugs are created three per second (equal unix creation times).",
+}
+for _k, _v in _ROUND9_RULES.items():
     PROPS[_k]["rule"] += " " + _v
